@@ -3,9 +3,10 @@
 
 use crate::gen::{self, Tier};
 use crate::oracle::{out_rel12, Scale};
-use crate::report::{self, Triage};
+use crate::driver::{conclude, run_stage};
+use crate::report;
 use crate::rng::{fnv_u64, run_seed, Rng};
-use crate::runner::{guarded, on, PanicVerdict, RunResult, Side};
+use crate::runner::{guarded, on, PanicVerdict, Side};
 use crate::scenario::{Op, Scenario, Violation};
 use crate::stats::{phase, Stats};
 use crate::sut::{build_spec, Input, Kind, Mode, NodeSpec, Params, ALL_KINDS};
@@ -301,7 +302,6 @@ pub fn run(tier: Tier) -> i32 {
     let c = report::ctx();
     let start = Instant::now();
     let mut total = Stats::default();
-    let mut violations = 0u64;
     let (depth, seeded_runs) = match tier {
         Tier::Quick => (5u32, 3_000_000u64),
         Tier::Thorough => (6u32, 60_000_000u64),
@@ -310,77 +310,19 @@ pub fn run(tier: Tier) -> i32 {
         Tier::Quick => Duration::from_secs(120),
         Tier::Thorough => Duration::from_secs(1500),
     };
-    let handle = |sc: Scenario, v: Violation, st: &mut Stats| -> RunResult {
-        match report::triage(sc, v, &exec_plain) {
-            Triage::Known(line) => {
-                st.known_findings.push(line);
-                RunResult::Ok
-            }
-            Triage::New(b) => RunResult::Violation(b),
-        }
-    };
-    // --- sweep
-    report::set_stage("sweep");
     let specs = sweep_specs();
     let sweep_runs = specs.len() as u64 * n_hist(depth) * 3;
-    let b = crate::runner::run_batch(sweep_runs, c.jobs, wall_cap, Duration::from_secs(60), |i, st| {
-        let sc = sweep_scenario(i, &specs, depth);
-        st.runs += 1;
-        if i % 997 == 0 {
-            st.prefix(&sc);
-        }
-        if i == 4321 {
-            st.samples.push(json!({"stage":"sweep","run":i,"scenario":sc}));
-        }
-        match exec_guarded(&sc, st) {
-            Some(v) => handle(sc, v, st),
-            None => RunResult::Ok,
-        }
-    });
-    let sweep_exec = b.executed;
-    let sweep_trunc = b.truncated;
-    total.merge(b.stats);
-    let mut found = b.found.map(|f| (f, sweep_scenario(0, &specs, depth).ops.len()));
-    // --- seeded
-    let mut seeded_exec = 0;
-    let mut seeded_trunc = false;
-    if found.is_none() {
-        report::set_stage("seeded");
-        let b = crate::runner::run_batch(seeded_runs, c.jobs, wall_cap, Duration::from_secs(60), |i, st| {
-            let mut rng = Rng::new(run_seed(c.seed, PROP, "seeded", i));
-            let sc = generate(&mut rng, tier);
-            st.runs += 1;
-            st.kind(sc.nodes[0].kind);
-            st.prefix(&sc);
-            if i < 2 {
-                let mut short = sc.clone();
-                short.ops.truncate(24);
-                st.samples.push(json!({"stage":"seeded","run":i,"total_ops":sc.ops.len(),"scenario_first_24_ops":short}));
-            }
-            match exec_guarded(&sc, st) {
-                Some(v) => handle(sc, v, st),
-                None => RunResult::Ok,
-            }
-        });
-        seeded_exec = b.executed;
-        seeded_trunc = b.truncated;
-        total.merge(b.stats);
-        found = b.found.map(|f| {
-            let mut rng = Rng::new(run_seed(c.seed, PROP, "seeded", f.run));
-            let n = generate(&mut rng, tier).ops.len();
-            (f, n)
-        });
+    let sweep = run_stage("sweep", sweep_runs, wall_cap, &mut total, &|i| sweep_scenario(i, &specs, depth), &exec_guarded, &[4321], 32);
+    let seeded = if sweep.found.is_none() {
+        Some(run_stage("seeded", seeded_runs, wall_cap, &mut total, &|i| generate(&mut Rng::new(run_seed(c.seed, PROP, "seeded", i)), tier), &exec_guarded, &[0, 1], 24))
+    } else {
+        None
+    };
+    let mut stages = vec![&sweep];
+    if let Some(s) = &seeded {
+        stages.push(s);
     }
-    if let Some((f, orig)) = &found {
-        violations = 1;
-        report::report_violation(f.run, *orig, &f.scenario, &f.violation);
-    }
-    let mut kf = total.known_findings.clone();
-    kf.sort();
-    kf.dedup();
-    for l in &kf {
-        println!("{}", l);
-    }
+    let violations = conclude(&total, &stages);
     let wall = start.elapsed().as_secs_f64();
     // every feed-level fault kind must actually have fired
     let dead: Vec<&str> = ALL_FEED_FAULTS.iter().filter(|f| !matches!(f, Fault::Drop)).map(|f| f.name()).filter(|n| total.faults.get(n).copied().unwrap_or(0) == 0).collect();
@@ -397,16 +339,16 @@ pub fn run(tier: Tier) -> i32 {
             wall_s: wall,
             violations,
             exhaustive: false,
-            extra: json!({"sweep": {"specs": specs.len(), "depth": depth, "runs": sweep_runs, "executed": sweep_exec, "truncated_by_wall_clock": sweep_trunc, "exhaustive_within_bounds": !sweep_trunc},
-                           "seeded": {"runs": seeded_runs, "executed": seeded_exec, "truncated_by_wall_clock": seeded_trunc},
+            extra: json!({"sweep": {"specs": specs.len(), "depth": depth, "stage": sweep.json(), "exhaustive_within_bounds": !sweep.truncated},
+                           "seeded": seeded.as_ref().map(|s| s.json()),
                            "dead_fault_kinds": dead}),
         },
     );
-    println!("C04 {:?}: sweep {} runs, seeded {} runs, {} ticks, {} situations, {:.1}s, violations={}", tier, sweep_exec, seeded_exec, total.ticks, total.situations.len(), wall, violations);
+    println!("C04 {:?}: sweep {} runs, seeded {} runs, {} ticks, {} situations, {:.1}s, violations={}", tier, sweep.executed, seeded.as_ref().map_or(0, |s| s.executed), total.ticks, total.situations.len(), wall, violations);
     if violations > 0 {
         return 1;
     }
-    if !dead.is_empty() {
+    if !dead.is_empty() && seeded.as_ref().map_or(false, |s| !s.truncated) {
         eprintln!("harness error: fault kinds never fired: {:?}", dead);
         return 2;
     }
